@@ -121,6 +121,8 @@ def lookup_method(name, call, func):
     receiver = dotted(call.func.value) if isinstance(call.func, ast.Attribute) else None
     if receiver is not None and "%s.%s" % (receiver, name) in METHODS:
         return METHODS["%s.%s" % (receiver, name)]
+    if name == "writerow" and _writes_to_memory_buffer(call, func):
+        return ()  # a csv writer attached to an io.StringIO cannot hit an encoding error
     classes = METHODS.get(name, ())
     if name == "index" and isinstance(call.func, ast.Attribute) and isinstance(call.func.value, ast.Constant):
         return ()
@@ -175,11 +177,61 @@ def decimal_from_text_names(func):
 
 
 def finiteness_guarded(func, name, lineno):
-    """An earlier ``if`` that tests ``<name>.is_finite()`` / ``is_nan()`` and raises makes the comparison safe."""
+    """
+    A guard ``if <name>.is_nan() / not <name>.is_finite(): raise ...`` DOMINATES the comparison when it is a statement
+    of a block that encloses the comparison (or of the function body) and stands before the statement leading to it.
+    """
+    parents = {}
+    for parent in ast.walk(func.node):
+        for child in ast.iter_child_nodes(parent):
+            parents[id(child)] = parent
+    target = None
     for node in walk_own(func.node):
-        if isinstance(node, ast.If) and node.lineno < lineno:
-            test = ast.unparse(node.test)
-            if ("%s.is_finite()" % name in test or "%s.is_nan()" % name in test) and any(
-                    isinstance(inner, ast.Raise) for inner in ast.walk(node)):
-                return True
+        if isinstance(node, ast.Compare) and node.lineno == lineno:
+            target = node
+            break
+    if target is None:
+        return False
+    current = target
+    while current is not None and current is not func.node:
+        parent = parents.get(id(current))
+        if parent is None:
+            break
+        for field in ("body", "orelse", "finalbody"):
+            block = getattr(parent, field, None)
+            if isinstance(block, list) and current in block:
+                for statement in block[: block.index(current)]:
+                    if isinstance(statement, ast.If):
+                        test = ast.unparse(statement.test)
+                        if ("%s.is_finite()" % name in test or "%s.is_nan()" % name in test) and statement.body \
+                                and isinstance(statement.body[-1], ast.Raise) and not statement.orelse:
+                            return True
+        current = parent
     return False
+
+
+def _writes_to_memory_buffer(call, func):
+    """``self.<writer>.writerow(..)`` where <writer> was built on ``self.<buffer>`` and <buffer> is an ``io.StringIO(...)``."""
+    receiver = call.func.value if isinstance(call.func, ast.Attribute) else None
+    if not (isinstance(receiver, ast.Attribute) and isinstance(receiver.value, ast.Name) and receiver.value.id == "self"):
+        return False
+    owner = func
+    while owner is not None and owner.cls is None:
+        owner = owner.parent
+    if owner is None:
+        return False
+    assignments = {}
+    for method in owner.cls.methods.values():
+        for node in walk_own(method.node):
+            if isinstance(node, ast.Assign) and isinstance(node.value, ast.Call):
+                for target in node.targets:
+                    if isinstance(target, ast.Attribute) and isinstance(target.value, ast.Name) and target.value.id == "self":
+                        assignments.setdefault(target.attr, []).append(node.value)
+    builders = assignments.get(receiver.attr, [])
+    if len(builders) != 1 or not builders[0].args:
+        return False
+    stream = builders[0].args[0]
+    if not (isinstance(stream, ast.Attribute) and isinstance(stream.value, ast.Name) and stream.value.id == "self"):
+        return False
+    sources = assignments.get(stream.attr, [])
+    return len(sources) == 1 and dotted(sources[0].func) in ("io.StringIO", "StringIO")
